@@ -115,13 +115,14 @@ theorem C13_append_decl_pkg (b b' : Bundle) (name : Str) (p p' : Pkg) (l l' : Lo
     (hf : b.find name = some p) (hf' : b'.find name = some p')
     (hl : loadPkg b (fuel + 1) chain name = .ok l)
     (hl' : loadPkg b' (fuel' + 1) chain' name = .ok l')
-    (pre post : List SrcFile) (path : Str) (imports : List Import) (elems : List Elem) (e : Elem)
-    (hp : p.files = pre ++ [.j5s path imports elems] ++ post)
-    (hp' : p'.files = pre ++ [.j5s path imports (elems ++ [e])] ++ post)
+    (pre post : List SrcFile) (path : Str) (imports : List Import) (elems : List Elem) (decl : Str)
+    (e : Elem)
+    (hp : p.files = pre ++ [.j5s path imports elems decl] ++ post)
+    (hp' : p'.files = pre ++ [.j5s path imports (elems ++ [e]) decl] ++ post)
     (hagree : ∀ f ∈ p.files, AgreeFile l.resolver l'.resolver f) :
     ∀ f ∈ l.files, ∃ f' ∈ l'.files, f.Le f' :=
   append_decl_pkg b b' name p p' l l' fuel fuel' chain chain' hf hf' hl hl' pre post path imports
-    elems e hp hp' hagree
+    elems decl e hp hp' hagree
 
 /-- conversion depends on the resolver only at the references it contains: the bridge between the
 per-container theorems and package-level edits -/
@@ -162,8 +163,10 @@ first), an enum appended to the first file; both compiles succeed and the resolv
 existing references -/
 def fileA (extra : List Elem) : SrcFile :=
   .j5s b!"foo/v1/a.j5s" [] ([.object (.mk b!"A" [.mk b!"x" false false (.string [] false)] [] none)] ++ extra)
+    b!"foo.v1"
 def fileB : SrcFile :=
   .j5s b!"foo/v1/b.j5s" [] [.object (.mk b!"B" [.mk b!"a" false false (.objectRef [] b!"A" false [])] [] none)]
+    b!"foo.v1"
 def bun (extra : List Elem) : Bundle := { pkgs := [ { name := b!"foo.v1", files := [fileA extra, fileB] } ] }
 def newDecl : Elem := .enum { name := b!"E", pfx := [], opts := [b!"ONE"] }
 def lOld : Loaded := match loadPkg (bun []) 2 [] b!"foo.v1" with | .ok l => l | _ => default
